@@ -17,3 +17,18 @@ TEXT = dict(
     text='Theorems C18_crc_eq_spec / C18_split_indep / C18_split_many / C18_reset / C18_sum_layout hold for every byte string of any length and every partition into writes; the 16 table literals are re-extracted from crc16.go on every run and re-checked by the kernel; the step function of the real code is compared with model and bitwise spec on all 65536×256 (state, byte) pairs plus random write/reset/sum histories.',
     note='Trusted: Lean kernel; go/ast extraction of the table; the harness/driver line protocol; the model of compute() (8 lines) is tied exhaustively at the step level, longer strings by induction in the model and by sampling on the implementation.',
 )
+
+# --- tie by translation (translators/go2lean, notes/go2lean.md; agreement theorems in lean/FitProps/C18Go2Lean.lean).
+# Kept as a separate block so that it never collides with edits of the dictionary above.
+PROP['regen'] = PROP['regen'] + ['go2lean:crc16']
+PROP['go2lean_diff'] = ['Crc']      # lean/Go2LeanDiff/<Topic>.lean: search for a differing argument when an agreement theorem breaks
+PROP['theorems'] = PROP['theorems'] + [
+    'Fit.C18.C18_go2lean_table',
+    'Fit.C18.C18_go2lean_compute',
+    'Fit.C18.C18_go2lean_write',
+    'Fit.C18.C18_go2lean_sum16',
+    'Fit.C18.C18_go2lean_sum',
+    'Fit.C18.C18_go2lean_reset',
+    'Fit.C18.C18_go2lean_crc_of_source']
+PROP['trusted_base'] = PROP['trusted_base'] + [
+    "translators/go2lean (Go→Lean for a small subset of Go, notes/go2lean.md) re-translates kit/hash/crc16/crc16.go (table, compute, Write, Sum16, Sum, Reset, Size, BlockSize; the method set of crc16 must be exactly these) from the current source on every run; the agreement theorems *_go2lean_* state that the translated functions equal the hand-written model functions for all arguments; trusted: the translator's rendering of the subset (go/types computes constants and types) and FitModel/GoPrelude.lean"]
